@@ -5,7 +5,9 @@ Tie: the extracted parser model vs milu::parser::parse on the same sources; the 
 tree from the documented table, written independently here) turns a divergence into a failing
 source text."""
 import itertools
+import collections
 import json
+import re
 
 from common import *
 
@@ -287,6 +289,46 @@ def gen(r, tier):
     return cases
 
 
+def ladder_shape():
+    """tags per level of the regenerated ladder (tightest level first), and the number of unary tags"""
+    src = open(os.path.join(VERIF, "coq", "theories", "Gen", "Gen_ladder.v")).read()
+    m = re.search(r"Definition levels[^:]*:[^=]*:=\s*\[(.*?)\]\s*\.\s*\n", src, re.S)
+    lv = re.findall(r"mk_level\s+\"[^\"]*\"\s+\"[^\"]*\"\s+\[(.*?)\]", m.group(1), re.S) if m else []
+    counts = [len(re.findall(r"\(\s*\"", x)) for x in lv]
+    mu = re.search(r"Definition unary_tags[^=]*:=\s*\[(.*?)\]\s*\.", src, re.S)
+    nun = len(re.findall(r"\"[^\"]*\"", mu.group(1))) if mu else 0
+    return counts, nun
+
+
+def rt_tree(r, depth, counts, nun):
+    """a random tree satisfying MiluRoundtrip.m_wf, in the prefix encoding of model_run's milu_rt"""
+    def ident(first_ok=True):
+        first = "abcdeghjkmnopqrsuvwxyzABCDEFGHIJKLMNOPQRSTUVWXYZ_" if first_ok else "abcdefghijklmnopqrstuvwxyzABCDEFGHIJKLMNOPQRSTUVWXYZ_"
+        return (r.choice(first) + "".join(r.choice("abcdefghijklmnopqrstuvwxyz0123456789_ABCXYZ") for _ in range(r.randint(0, 6)))).encode().hex()
+    if depth <= 0 or r.random() < 0.15:
+        if r.random() < 0.5:
+            return ["A", ident()]
+        return ["N", r.choice(["", "0", "00"]) + str(r.choice([0, 1, 7, 42, 65535, 2 ** 31, 2 ** 62, 2 ** 63 - 1, r.randint(0, 10 ** 6)]))]
+    k = r.random()
+    sub = lambda: rt_tree(r, depth - 1, counts, nun)
+    if k < 0.45:
+        m = r.randrange(len(counts))
+        return ["B", str(m), str(r.randrange(counts[m]))] + sub() + sub()
+    if k < 0.55:
+        return ["U", str(r.randrange(nun))] + sub()
+    if k < 0.65:
+        return ["X"] + sub() + sub()
+    if k < 0.75:
+        return ["F"] + sub() + [ident(False)]
+    if k < 0.88:
+        n = r.randint(0, 3)
+        out = ["K", str(n)] + sub()
+        for _ in range(n):
+            out += sub()
+        return out
+    return ["C"] + sub() + sub() + sub()
+
+
 def run(tier, seed, replay=None):
     rep = Report("C09", tier, seed)
     coq, model, driver, blog = standard_setup("C09")
@@ -322,6 +364,26 @@ def run(tier, seed, replay=None):
             if oi != "OK " + meta["want"]:
                 rep.fail("C09 oracle: %s spelling %r parses to %s, the documented table gives %s" % (meta["form"], src.decode("utf-8", "replace")[:100], oi[:160], meta["want"][:160]),
                          {"kind": "failing-input", "cases": [dict(kind=kind, line=line, meta=meta)], "source": src.decode("utf-8", "replace"), "observed": oi, "expected": "OK " + meta["want"]})
+    # the printer of the round-trip theorem against the real parser: m_print t must parse to m_denote t
+    counts, nun = ladder_shape()
+    n_rt, rt_sizes = 0, collections.Counter()
+    if counts and nun and not replay:
+        encs = [",".join(rt_tree(r, r.randint(1, 5 if tier == "quick" else 7), counts, nun)) for _ in range(1500 if tier == "quick" else 12000)]
+        encs = sorted(set(encs))
+        mo = run_model(model, ["milu_rt " + e for e in encs])
+        good = [(e, o.split(" ", 2)) for e, o in zip(encs, mo) if o.startswith("OK ")]
+        io = run_impl(driver, ["milu_parse " + g[1][1] for g in good])
+        for (e, parts), oi in zip(good, io):
+            n_rt += 1
+            rt_sizes[min(len(e.split(",")) // 10, 9)] += 1
+            if oi != "OK " + parts[2]:
+                srcb = bytes.fromhex(parts[1])
+                rep.fail("C09 round trip: the theorem's printer gives %r, the real parser answers %s, the theorem's tree is %s" % (srcb.decode()[:120], oi[:160], parts[2][:160]),
+                         {"kind": "failing-input", "cases": [dict(kind="rt", line="milu_parse " + parts[1], meta=dict(form="rt", want=parts[2]))], "source": srcb.decode(), "observed": oi, "expected": "OK " + parts[2]})
+        if len(good) != len(encs):
+            rep.broken_obligation("correspondence C09: milu_rt failed on %d generated trees" % (len(encs) - len(good)), str([o for o in mo if not o.startswith("OK ")][:3]))
+    elif not replay:
+        rep.broken_obligation("correspondence C09: could not read the ladder shape from Gen_ladder.v", "")
     n_diff, first = diff_stats(rep, cases, impl, mod, "C09", "")
     if n_diff and not rep.violations:
         rep.broken_obligation("correspondence C09: parser model (MiluParser.v + Gen_ladder.v) and milu::parser::parse differ on %d source(s)" % n_diff, json.dumps(first))
@@ -332,6 +394,7 @@ def run(tier, seed, replay=None):
         "evaluations": len(cases), "distinct_nontrivial": nt,
         "rule": "every documented operator alone; every ordered pair of binary/unary/postfix/conditional operators in both tree shapes; every ordered triple over one spelling per precedence level (all spellings in the thorough tier); random trees to depth 5; each tree in minimal-spaced, minimal-tight, fully parenthesised and blank/comment-filled spelling; plus a lexical edge list compared with the model only; non-trivial = distinct source with an expected tree",
         "input_distribution": dist, "model_impl_disagreements": n_diff,
+        "roundtrip_printer_cases": n_rt, "roundtrip_tree_size_deciles": dict(rt_sizes),
         "samples": [dict(source=bytes.fromhex(cases[i][1].split(" ")[1]).decode("utf-8", "replace")[:100] if cases[i][1].split(" ")[1] != "-" else "", impl=impl[i][:120]) for i in range(0, len(cases), max(1, len(cases) // 6))][:6],
     })
     rep.assumptions = ["template strings (backticks) are outside the parser model and the generator",
